@@ -775,11 +775,16 @@ class XsdElement(XsdComponent, ParticleMixin,
                     context.validation_error(validation, self, reason, obj)
 
         else:
-            if len(obj):
+            if any(not callable(child.tag) for child in obj):
+                # comments and processing instructions are not child elements
                 reason = _("a simple content element can't have child elements")
                 context.validation_error(validation, self, reason, obj)
 
             text = obj.text
+            if len(obj):
+                # The character data after a comment or a processing instruction
+                # (trees that keep them, e.g. lxml) belongs to the content too.
+                text = (text or '') + ''.join(child.tail or '' for child in obj)
             if self.fixed is not None:
                 if not text:
                     text = self.fixed
